@@ -55,10 +55,10 @@ def opens():
 
 
 def seeded():
-    out = ["| seed | breaks | needs, to manifest | caught by | how it is reported |", "|---|---|---|---|---|"]
+    out = ["| seed | the change | needs, to manifest | caught by | how it is reported |", "|---|---|---|---|---|"]
     for mf in sorted(glob.glob(os.path.join(ROOT, "seeded", "*", "meta.json"))):
         m = json.load(open(mf))
-        out.append("| %s | %s | %s | %s | %s |" % (os.path.basename(os.path.dirname(mf)), m.get("property"), m.get("summary", "").replace("|", "/")[:300],
+        out.append("| %s | %s | %s | %s | %s |" % (os.path.basename(os.path.dirname(mf)), m.get("summary", "").replace("|", "/")[:300], m.get("needs_to_manifest", "").replace("|", "/")[:300],
                                                 m.get("caught_by", "—"), m.get("reported_as", "").replace("|", "/")[:260]))
     return "\n".join(out)
 
